@@ -126,9 +126,11 @@ def corpus_files():
     return out
 
 
-def faults(text, kinds):
+def faults(text, kinds, stride=1):
     n = len(text)
     for i in range(n):
+        if stride > 1 and i % stride and text[i - 1:i] != "\n":
+            continue          # quick tier on long files: every stride-th position and every line start
         if "trunc" in kinds:
             yield ("trunc", i, text[:i])
         if "del" in kinds:
@@ -140,9 +142,10 @@ def faults(text, kinds):
 
 
 def shard_corpus(spec):
-    fname, text, kinds, lo, hi = spec
+    fname, text, kinds, lo, hi = spec[:5]
+    stride = spec[5] if len(spec) > 5 else 1
     acc = Acc()
-    for kind, i, t in faults(text, kinds):
+    for kind, i, t in faults(text, kinds, stride):
         if not (lo <= i < hi):
             continue
         judge(acc, "corpus", t, {"file": fname, "fault": kind, "at": i})
@@ -187,23 +190,25 @@ def run(ctx):
     cspecs = []
     budget_chars = 0
     for fname, text in files:
+        stride = 1
         if q:
-            kinds = ["trunc"] if len(text) > 1500 else ["trunc", "del"]
+            kinds = ["trunc"] if len(text) > 250 else ["trunc", "del"]
+            stride = 1 if len(text) <= 250 else (3 if len(text) <= 1100 else 12)
             if len(text) > 6000:
                 continue
         else:
             kinds = ["trunc", "del", "dup", "swap"]
         step = 400
         for lo in range(0, len(text), step):
-            cspecs.append((fname, text, kinds, lo, lo + step))
+            cspecs.append((fname, text, kinds, lo, lo + step, stride))
         budget_chars += len(text)
     ctx.pmap(shard_corpus, cspecs, into=acc)
     cov = {
         "evaluations": acc.n, "distinct_nontrivial": acc.nontrivial,
         "rule": "every string over %r up to length %d, over %r up to length %d, over %r up to length %d; every "
                 "token sequence of length <= %d over the 18-token alphabet rendered with single spaces; every "
-                "concatenation of <= %d items of %r; every product of date x time x zone fragments (valid and invalid) in 4 value contexts; every single-character fault (quick: truncation everywhere, "
-                "deletion in files <= 1500 chars; thorough: truncation, deletion, duplication, adjacent swap) of "
+                "concatenation of <= %d items of %r; every product of date x time x zone fragments (valid and invalid) in 4 value contexts; every single-character fault (quick: truncation at every position of files <= 250 chars, "
+                "at every 3rd/12th position and every line start of longer ones, deletion in files <= 250 chars; thorough: truncation, deletion, duplication, adjacent swap) of "
                 "%d corpus files (%d characters); each through the 5 loader configurations under a step "
                 "budget of 200+60*len (x20 before a spin is reported); distinct_nontrivial counts distinct "
                 "input texts (each text is one case evaluated on 5 loaders)"
